@@ -199,7 +199,7 @@ def run_case(case, ctx):
     raw = rs.randint(-40, 41, size=lead + (n_src,))
     data = (raw / 8.0).astype(case["dtype"]) if case["dtype"].startswith("float") else raw.astype(case["dtype"])
     dims = datagen.LEAD_NAMES[: len(lead)] + [KIND_DIM[kind]]
-    da = ux.UxDataArray(data, dims=dims, uxgrid=gs, name="v")
+    da = ux.UxDataArray(data.copy(), dims=dims, uxgrid=gs, name="v")  # the library gets its own copy; expectations use `data`
     D = S.angle_np(Q[:, None, :], P[None, :, :])  # (n_dst, n_src)
     want_dims = tuple(datagen.LEAD_NAMES[: len(lead)] + [KIND_DIM[remap_to]])
 
@@ -213,6 +213,10 @@ def run_case(case, ctx):
     if case["method"] == "nn":
         res = da.remap.nearest_neighbor(gd, remap_to=remap_to, coord_type=coord_type)
         if not dims_grid(res, "nearest_neighbor"):
+            return fails
+        ctx.ev("input_unchanged")
+        if not np.array_equal(np.asarray(da.values), data):
+            bad("input_unchanged", "data-modified", "nearest_neighbor changed the source variable")
             return fails
         got = np.asarray(res.values)
         ctx.ev("nn_is_nearest")
@@ -253,6 +257,10 @@ def run_case(case, ctx):
     kw = dict(remap_to=remap_to, coord_type=coord_type, power=power, k=k)
     res = da.remap.inverse_distance_weighted(gd, **kw)
     if not dims_grid(res, "inverse_distance_weighted"):
+        return fails
+    ctx.ev("input_unchanged")
+    if not np.array_equal(np.asarray(da.values), data):
+        bad("input_unchanged", "data-modified", "inverse_distance_weighted changed the source variable")
         return fails
     got = np.asarray(res.values, float)
     # weight matrix through an identity field: W[e, j] = weight of source element e at destination j
